@@ -4,14 +4,21 @@ Tie T+D: (a) the ordered file effects of a real `save` (unlink / np.savez / touc
 library calls, per object and save_mesh_only, over a directory in which every cache file already exists) must be a
 plan accepted by the model's executable test `Femio.C05.GoodMid` - the hypothesis of the `*_plan` theorems, which hold
 for EVERY order of the effects between the removal and the re-creation of the sentinel; whether the traced order also
-equals `saveSteps Cfg.fixed` is recorded, not required; (b) random histories read | save X | crash X@k
-(optionally torn inside the next np.savez) on a real temp directory: after every operation the directory
+equals `saveSteps Cfg.fixed` is recorded, not required; (a') the same save is left by an exception at EVERY effect
+(before / right after it): the effects performed before must be the prefix of the plan and the effects the code performs
+while the stack unwinds (finally / except / __exit__) must be accepted by `GoodUnwind` - the hypothesis of the
+`*_unwind` theorems; (b) random histories read | save X | interrupted save X@k | read whose automatic save is interrupted
+@k | a save that raises by itself, on a real temp directory: after every operation the directory
 (per cache file: absent / torn / written from which object) and what a read returned are compared with the
-directory machine.  Crash points are injected without touching /repo: the harness wraps numpy.savez,
-Path.touch and Path.unlink and raises a BaseException before the k-th effect.
+directory machine.  An interruption is either a PROCESS DEATH (nothing after effect k reaches the disk) or an
+EXCEPTION that unwinds the Python stack (KeyboardInterrupt, SystemExit, OSError(ENOSPC), MemoryError raised once from
+inside the wrapped call of effect k - before it, after half-writing its file, or right after it; later effects are
+performed and traced).  Injected without touching /repo: the harness wraps numpy.savez, Path.touch and Path.unlink.
 Oracle: a read returns the parse of the source or exactly one completely saved object; save -> load
 reproduces every group exactly (digests over float.hex / ints / strings by id)."""
+import collections
 import contextlib
+import errno
 import io
 import pathlib
 import shutil
@@ -24,6 +31,8 @@ from . import meshgen as mg
 PROP = 'C05'
 LEAN_MODULES = ['Femio.Props.C05', 'Femio.Props.C05K']
 THEOREMS = ['C05_full_save_plan', 'C05_crash_inv_plan', 'C05_history_inv_plan', 'C05_crash_safe_plan', 'mid_good',
+            'C05_crash_inv_unwind', 'C05_read_interrupt_inv', 'C05_history_inv_unwind', 'C05_crash_safe_unwind',
+            'C05_unwind_extends_plan', 'C05_interrupted_read_transparent', 'C05_unwind_counterexample_marker_in_finally',
             'C05_full_save', 'C05_crash_inv', 'C05_save_inv', 'C05_read_inv', 'C05_history_inv', 'C05_crash_safe',
             'C05_cache_transparent', 'C05_load_complete_save', 'C05_crash_counterexample_upstream',
             'C05_stale_counterexample_upstream', 'split_join', 'C05_keys_attr_roundtrip', 'C05_keys_roundtrip',
@@ -32,22 +41,39 @@ THEOREMS = ['C05_full_save_plan', 'C05_crash_inv_plan', 'C05_history_inv_plan', 
 PARTIAL = ['key scheme theorems (C05_keys_*) treat array payloads as opaque tags: numpy.savez / numpy.load exactness is trusted; names / '
            'types containing "/" are excluded by hypothesis (femio itself cannot load them)',
            'torn writes inside one np.savez are modelled as "file present but unreadable" (a crash point), not byte-level',
-           'read options other than the defaults (read_mesh_only, differing time_series) across one history are not modelled']
-RULE = ('seeded histories (quick <= 6 ops, thorough <= 10) over read | save X [mesh-only] | crash X@k [torn] with three distinct '
-        'objects (source parse, A, B) whose optional groups (nodal, elemental, constraints) are independently empty or not, on a '
-        'real temp directory; thorough additionally enumerates ALL crash points x torn x mesh-only of a second save exhaustively; '
-        'a case = one operation; non-trivial = the operation changed the directory or was a read served from the cache; plus a '
-        'save->load exactness stream over uniform/mixed (incl. tet+tet2), ragged polyhedral, rank 1-3, string-valued settings; '
+           'read options other than the defaults (read_mesh_only, differing time_series) across one history are not modelled',
+           'clean-up effects performed while an exception unwinds the stack are a traced parameter of the *_unwind theorems '
+           '(hypothesis GoodUnwind, evaluated on every interrupted run), not derived from the source of save()']
+RULE = ('seeded histories (quick <= 6 ops, thorough <= 10) over read | save X [mesh-only] | crash X@k [torn] (process death) | '
+        'interrupt X@k by KeyboardInterrupt / SystemExit / OSError(ENOSPC) / MemoryError raised once from inside the wrapped '
+        'effect k [before it | after half-writing its file | right after it] (later effects - finally / except / __exit__ - run and '
+        'are traced) | the same two kinds inside the automatic save of read_directory | a save that raises by itself (settings key '
+        'colliding with numpy.savez(file=), unpicklable settings value), with distinct objects (source parse from a UCD / FrontISTR '
+        'msh+cnt / OBJ directory, A, B, poisoned N) whose optional groups (nodal, elemental, constraints) are independently empty or '
+        'not, on a real temp directory; interruption points k uniform over 0..11 with the first effect (old cache still valid) and '
+        'the last one over-weighted; 15 fixed histories (each kind of interruption of a second save over a complete cache of another '
+        'object, of the first read, before the first / after the last effect); thorough additionally enumerates ALL interruption '
+        'points x {death, death torn, exception before / torn / after} x mesh-only of a second save and of a first read; a case = one '
+        'operation; non-trivial = the operation changed the directory or was a read served from the cache; the unwind tie leaves the '
+        'save of every combination of empty / non-empty groups x mesh-only by an exception at every effect; plus a '
+        'save->load exactness stream over uniform/mixed (incl. tet+tet2), ragged polyhedral, rank 1-3, string-valued settings, 30% '
+        'into a (nested) target directory that does not exist yet; '
         'in that stream 40% of the nodal / elemental / constraint variables are stored under a dict key that differs from their '
         'FEMAttribute.name (incl. several keys sharing one name; attrs[key] = a or attrs.update({key: a})) and must load back '
         'under the key, and half of the variables (rank 1, 2, 3) go through one public in-place update before save() '
         '(FEMAttribute.update / FEMAttributes.update_data with allow_overwrite=True, a write through a .loc / .iloc slice, the '
         'data_frame setter); ids, data SHAPES and values (bit patterns) of what the object reports before save() are compared '
         'with what is loaded')
-ASSUMPTIONS = ['a process death is modelled by a BaseException raised before (or, torn, in the middle of) the k-th file effect; '
-               'effects already performed are durable, in order (no reordering by the OS)',
+ASSUMPTIONS = ['an interruption is modelled at the granularity of file effects: a process death by a BaseException raised instead of '
+               '(or, torn, in the middle of) the k-th file effect and of every later one; an interruption that unwinds the stack by '
+               'one exception raised from inside the wrapped call of the k-th effect (before / torn / after), later effects performed '
+               'and traced; effects already performed are durable, in order (no reordering by the OS); an asynchronous exception '
+               'between two effects is represented by the one raised at the next effect (same set of performed effects, same '
+               'enclosing try blocks unless a try block contains no file effect at all)',
                "settings are compared after .item(); a missing / None 'solution_type' is identified with the default 'STATIC' "
-               'that read_npy_directory fills in']
+               'that read_npy_directory fills in',
+               'a source whose parse has no element at all (vertex-only OBJ) is outside the quantifier (uniform / mixed elements): '
+               'its cache has no femio_elements file and read_npy_directory raises KeyError; such sources are skipped and counted']
 TRUSTED = ['C05: numpy.savez / numpy.load round-trip arrays exactly (third-party)']
 
 FILES = ['nodes', 'elements', 'nodal', 'elemental', 'constraints', 'settings', 'sentinel']
@@ -132,55 +158,138 @@ def ref_file_digests(fd):
 
 # ------------------------------------------------------------------ crash injection / tracing
 
+EXCS = {'KeyboardInterrupt': lambda: KeyboardInterrupt(),                                 # Ctrl-C
+        'SystemExit': lambda: SystemExit(143),                                            # raised by a SIGTERM handler
+        'OSError': lambda: OSError(errno.ENOSPC, 'No space left on device'),              # an ordinary Exception
+        'MemoryError': lambda: MemoryError()}
+
+
 @contextlib.contextmanager
-def effects(directory, crash_at=None, torn=False, trace=None):
-    """wrap numpy.savez, Path.touch, Path.unlink; count effects on femio_* files inside `directory`"""
+def effects(directory, crash_at=None, torn=False, trace=None, exc=None, after=False, unwind=None):
+    """wrap numpy.savez, Path.touch, Path.unlink; count effects on femio_* files inside `directory`.
+
+    Two kinds of interruption at effect number `crash_at`:
+    * exc=None, a PROCESS DEATH: `Crash` is raised instead of effect k and instead of every later effect (whatever a
+      `finally` / `except` / `__exit__` of the code under test tries afterwards never reaches the disk);
+    * exc=<name in EXCS>, an EXCEPTION that unwinds the Python stack: raised ONCE from inside the wrapped call of effect k
+      (before performing it; with `torn` after half-writing its file; with `after` right after performing it).  Every
+      later effect is performed normally and recorded in `unwind`.
+    `trace`: the effects performed before the interruption.  The yielded state holds 'fired' (number of effects performed
+    before the interruption, None = never interrupted), 'injected' (the exception instance raised here) and 'errors'
+    (index in `trace`, exception, kind, file) for exceptions raised by a real effect itself (an unserialisable value,
+    ...): whether one of those is an interruption is decided by the caller (did it leave save()?)."""
     import numpy
     directory = pathlib.Path(directory).resolve()
-    state = {'n': 0}
+    state = {'n': 0, 'fired': None, 'injected': None, 'errors': []}
     real_savez, real_touch, real_unlink = numpy.savez, pathlib.Path.touch, pathlib.Path.unlink
 
     def relevant(p):
-        p = pathlib.Path(p)
+        try:
+            p = pathlib.Path(p)
+        except TypeError:
+            return False
         return p.name.startswith('femio_') and p.resolve().parent == directory
 
-    def gate(kind, p, tear=None):
+    def inject():
+        e = Crash() if exc is None else EXCS[exc]()
+        state['injected'] = e
+        return e
+
+    def perform(kind, p, real, tear=None):
         if not relevant(p):
-            return
+            return real()
         name = pathlib.Path(p).name
         if kind == 'W' and not name.endswith('.npz') and not name.endswith('.npy'):
             name += '.npz'
-        if crash_at is not None and state['n'] == crash_at:
+        name = RNAME.get(name, name)
+        if state['fired'] is not None:            # after the interruption
+            if exc is None:
+                raise Crash()                     # the process is dead
+            if unwind is not None:
+                unwind.append((kind, name))       # performed while the exception unwinds the stack
+            return real()
+        idx = state['n']
+        if crash_at is not None and idx == crash_at and not (after and exc is not None):
+            state['fired'] = idx
             if torn and tear is not None:
                 tear()
-            raise Crash()
+            raise inject()
         state['n'] += 1
         if trace is not None:
-            trace.append((kind, RNAME.get(name, name)))
+            trace.append((kind, name))
+        try:
+            out = real()
+        except BaseException as e:
+            state['errors'].append((idx, e, kind, name))
+            raise
+        if crash_at is not None and idx == crash_at:
+            state['fired'] = idx + 1
+            raise inject()
+        return out
 
-    def savez(file, *a, **k):
+    def savez(*a, **k):
+        file = a[0] if a else k.get('file')
+
         def tear():
             buf = io.BytesIO()
-            real_savez(buf, *a, **k)
+            real_savez(buf, *a[1:], **k)
             b = buf.getvalue()
             target = pathlib.Path(str(file) + ('' if str(file).endswith('.npz') else '.npz'))
             target.write_bytes(b[: max(1, len(b) // 2)])
-        gate('W', file, tear)
-        return real_savez(file, *a, **k)
+        return perform('W', file, lambda: real_savez(*a, **k), tear)
 
     def touch(self, *a, **k):
-        gate('W', self)
-        return real_touch(self, *a, **k)
+        return perform('W', self, lambda: real_touch(self, *a, **k))
 
     def unlink(self, *a, **k):
-        gate('R', self)
-        return real_unlink(self, *a, **k)
+        return perform('R', self, lambda: real_unlink(self, *a, **k))
 
     numpy.savez, pathlib.Path.touch, pathlib.Path.unlink = savez, touch, unlink
     try:
         yield state
     finally:
         numpy.savez, pathlib.Path.touch, pathlib.Path.unlink = real_savez, real_touch, real_unlink
+
+
+def run_interruptible(fn, directory, inj=None):
+    """run fn() with the file effects traced and, with inj = {'k', 'torn', 'exc', 'after'}, interrupted.
+    -> (returned, error, interruption, trace): `interruption` = None (fn ran to its end and nothing was injected) or
+    {'p': number of effects performed before it, 'torn': the file of effect p was left half-written, 'unwind': effects
+    performed afterwards, 'by': 'kill' | name of the injected exception | 'femio:<exception raised by femio itself>',
+    'swallowed': the injected exception did not leave fn}; `error` = text of an exception that left fn and is neither
+    the injected one nor raised by an effect of the save (None otherwise)"""
+    inj = inj or {}
+    tr, unw = [], []
+    returned, escaped = None, None
+    with effects(directory, crash_at=inj.get('k'), torn=bool(inj.get('torn')), trace=tr, exc=inj.get('exc'),
+                 after=bool(inj.get('after')), unwind=unw) as st:
+        try:
+            with contextlib.redirect_stdout(io.StringIO()):
+                returned = fn()
+        except BaseException as e:
+            escaped = e
+    by = 'kill' if inj.get('exc') is None else inj['exc']
+    if st['fired'] is not None:
+        torn = bool(inj.get('torn')) and not inj.get('after')
+        intr = {'p': st['fired'], 'torn': torn, 'unwind': unw, 'by': by, 'swallowed': escaped is None}
+        err = None
+        if escaped is not None and escaped is not st['injected'] and not isinstance(escaped, Crash):
+            intr['replaced_by'] = f'{type(escaped).__name__}: {escaped}'     # raised by the clean-up code itself
+        return returned, err, intr, tr
+    if escaped is None:
+        return returned, None, None, tr
+    if isinstance(escaped, (KeyboardInterrupt, SystemExit)):
+        raise escaped                       # not ours: a real Ctrl-C / exit of the check itself
+    text = f'{type(escaped).__name__}: {escaped}'
+    for idx, e, kind, name in st['errors']:
+        if e is escaped:                     # an effect of the save itself failed and the exception left fn
+            target = pathlib.Path(directory) / FNAME.get(name, name)
+            intr = {'p': idx, 'torn': kind == 'W' and name != 'sentinel' and target.exists(), 'unwind': tr[idx + 1:],
+                    'by': 'femio:' + type(escaped).__name__, 'swallowed': False}
+            return None, text, intr, tr[:idx]
+    # raised by femio between two effects: everything traced counts as performed before it
+    intr = {'p': len(tr), 'torn': False, 'unwind': [], 'by': 'femio:' + type(escaped).__name__, 'swallowed': False}
+    return None, text, intr, tr
 
 
 # ------------------------------------------------------------------ objects
@@ -303,18 +412,34 @@ def make_obj(r, tag, has_nodal_extra=True, has_elemental=True, has_constraints=T
     return fd, m
 
 
-def make_source(r, directory, tag):
-    """a source directory (UCD) and the reference parse"""
+SKIPPED = collections.Counter()
+SOURCES = {'ucd': ('mesh.inp', [['tet'], ['hex'], ['tet', 'hex'], ['tri', 'quad'], ['prism', 'hex']]),
+           'fistr': ('mesh', [['tet'], ['hex'], ['tet', 'hex'], ['prism', 'hex'], ['tet2']]),       # mesh.msh + mesh.cnt
+           'obj': ('mesh.obj', [['tri'], ['quad'], ['tri', 'quad']])}
+
+
+def make_source(r, directory, tag, file_type='ucd'):
+    """a source directory (AVS UCD / FrontISTR msh + cnt / Wavefront OBJ) and the reference parse"""
     from femio import FEMData, FEMAttribute
-    types = r.choice([['tet'], ['hex'], ['tet', 'hex'], ['tri', 'quad'], ['prism', 'hex']])
-    m = mg.gen_combinatorial(r, types=types, max_elems=7, unref=False)
-    m['nodes'] = [(i, (p[0] + tag, p[1], p[2])) for i, p in m['nodes']]
-    fd = mg.to_femio(m)
-    with contextlib.redirect_stdout(io.StringIO()):
-        fd.nodal_data['T'] = FEMAttribute('T', ids=fd.nodes.ids, data=np.arange(len(fd.nodes.ids), dtype=float)[:, None] + tag,
-                                          silent=True)
-        fd.write('ucd', directory / 'mesh.inp')
-        parse = FEMData.read_directory('ucd', directory, read_npy=False, save=False)
+    fname, pool = SOURCES[file_type]
+    while True:
+        types = r.choice(pool)
+        m = mg.gen_combinatorial(r, types=types, max_elems=7, unref=False)
+        m['nodes'] = [(i, (p[0] + tag, p[1], p[2])) for i, p in m['nodes']]
+        fd = mg.to_femio(m)
+        with contextlib.redirect_stdout(io.StringIO()):
+            if file_type != 'obj':
+                fd.nodal_data['T'] = FEMAttribute('T', ids=fd.nodes.ids, data=np.arange(len(fd.nodes.ids), dtype=float)[:, None] + tag,
+                                                  silent=True)
+            for f in directory.glob('mesh*'):
+                f.unlink()
+            fd.write(file_type, directory / fname)
+            parse = FEMData.read_directory(file_type, directory, read_npy=False, save=False)
+        if len(parse.elements) and len(parse.elements.ids):
+            break
+        # the OBJ writer exports the SURFACE: random facets that coincide pairwise leave a vertex-only file whose parse
+        # has no element at all - outside the quantifier (uniform / mixed elements); another source is drawn
+        SKIPPED['source whose parse has no element (outside the quantifier): skipped'] += 1
     return parse
 
 
@@ -388,6 +513,66 @@ def plan_good(ctx, tag, fl, mo, tr, case):
     return rep[1] == '1'
 
 
+POISONS = ['reserved-key', 'unpicklable']
+
+
+def poison(fd, how):
+    """make fd.save() raise by itself while it writes the settings (the LAST data file): a settings key that collides with
+    the `file` parameter of numpy.savez (TypeError before the file is created), or a value that cannot be pickled
+    (numpy.savez leaves a settings file holding only the entries before it).  -> the key to remove again"""
+    import threading
+    if how == 'reserved-key':
+        fd.settings['file'] = 'run.log'
+        return 'file'
+    fd.settings['zz_lock'] = threading.Lock()
+    return 'zz_lock'
+
+
+def op_injection(op):
+    """the interruption an operation injects (None: none)"""
+    if op[0] == 'crash':
+        return {'k': op[3], 'torn': op[4], 'exc': None, 'after': 0}
+    if op[0] == 'interrupt':
+        return {'k': op[3], 'torn': int(op[4] and not op[6]), 'exc': op[5], 'after': op[6]}
+    if op[0] == 'rcrash':
+        return {'k': op[1], 'torn': op[2], 'exc': None, 'after': 0}
+    if op[0] == 'rinterrupt':
+        return {'k': op[1], 'torn': int(op[2] and not op[4]), 'exc': op[3], 'after': op[4]}
+    return None
+
+
+def random_op(r, step, prev):
+    """read | save X [mesh-only] | crash X@k [torn] (process death) | interrupt X@k by an exception [torn | after the
+    effect] | the same two inside the automatic save of a read | nsave (a save that raises by itself)"""
+    def point():
+        # the first effect (nothing done yet, an old cache still valid) and the last one (everything done) are the points
+        # at which clean-up code is most likely to be wrong: over-weighted
+        u = r.random()
+        return (0 if u < .12 else -1 if u < .24 else r.randint(0, 11)), int(r.random() < .35)
+    if prev is not None and prev[0] in ('crash', 'interrupt', 'rcrash', 'rinterrupt', 'nsave') and r.random() < .5:
+        return ('read',)
+    u = r.random()
+    if step == 0 and r.random() < .25:          # only a read without cache saves: most useful as the first operation
+        u = .93
+    if u < .3:
+        return ('read',)
+    if u < .5:
+        return ('save', r.choice([2, 3]), int(r.random() < .25))
+    if u < .68:
+        k, torn = point()
+        return ('crash', r.choice([2, 3]), int(r.random() < .2), k, torn)
+    if u < .9:
+        k, torn = point()
+        after = int(not torn and r.random() < .4)
+        return ('interrupt', r.choice([2, 3]), int(r.random() < .2), k, torn, r.choice(list(EXCS)), after)
+    if u < .96:
+        k, torn = point()
+        if r.random() < .4:
+            return ('rcrash', k, torn)
+        return ('rinterrupt', k, torn, r.choice(list(EXCS)), int(not torn and r.random() < .4))
+    return ('nsave', r.choice(POISONS))
+
+
 def run_history(ctx, hid, ops_fixed=None):
     from femio import FEMData
     r = ctx.rng
@@ -395,7 +580,10 @@ def run_history(ctx, hid, ops_fixed=None):
     if d.exists():
         shutil.rmtree(d)
     d.mkdir(parents=True)
-    parse = make_source(r, d, tag=1)
+    u = r.random()
+    ft = 'ucd' if u < .55 else 'fistr' if u < .85 else 'obj'
+    ctx.count('source:' + ft)
+    parse = make_source(r, d, 1, ft)
     A, _ = make_obj(r, 2, has_nodal_extra=r.random() < .8, has_elemental=r.random() < .6, has_constraints=r.random() < .6,
                     types=r.choice([['tet'], ['hex'], ['tet', 'hex']]), drop_node_entry=r.random() < .3)
     B, _ = make_obj(r, 3, has_nodal_extra=r.random() < .5, has_elemental=r.random() < .4, has_constraints=r.random() < .4,
@@ -406,55 +594,83 @@ def run_history(ctx, hid, ops_fixed=None):
     model_dir = ['a'] * 7
     model_on = True        # after a disagreement the history continues on the real code (oracle only)
     plans = {}
+    poisoned = {}
+
+    traces = {}
+
+    def traced(t, mo):
+        """the ordered effects of a complete save of object t (needs no model)"""
+        if (t, mo) not in traces:
+            key = None
+            if t == 4:      # the plan of the poisoned object is the plan of the same object without the poisonous entry
+                key = poisoned['key']
+                val = objs_fd[4].settings.pop(key)
+            traces[(t, mo)] = trace_plan(ctx, objs_fd[t], mo)
+            if key is not None:
+                objs_fd[4].settings[key] = val
+        return traces[(t, mo)]
 
     def plan(t, mo):
         if (t, mo) not in plans:
-            tr = trace_plan(ctx, objs_fd[t], mo)
+            tr = traced(t, mo)
             plans[(t, mo)] = (tr, plan_good(ctx, t, objs[t][1], mo, tr, {'object': t, 'mesh_only': mo,
                                                                           'flags': list(objs[t][1])}))
         return plans[(t, mo)]
+
+    def need_poisoned(how):
+        """object 4: an ordinary object whose save() raises by itself while writing the settings"""
+        if poisoned.get('how') != how:
+            if 4 not in objs_fd:
+                N, _ = make_obj(r, 4, has_nodal_extra=True, has_elemental=r.random() < .5, has_constraints=r.random() < .5,
+                                types=r.choice([['tet'], ['hex']]))
+                objs_fd[4] = N
+            elif 'key' in poisoned:
+                objs_fd[4].settings.pop(poisoned['key'])
+            poisoned['key'] = poison(objs_fd[4], how)
+            poisoned['how'] = how
+            objs[4] = (digest(objs_fd[4]), flags(objs_fd[4]))
+            refs[4] = ref_file_digests(objs_fd[4])
+            plans.pop((4, 0), None)
+            traces.pop((4, 0), None)
     n_ops = r.randint(1, ctx.n(6, 10)) if ops_fixed is None else len(ops_fixed)
     hist = []
     for step in range(n_ops):
-        if ops_fixed is not None:
-            op = ops_fixed[step]
-        else:
-            u = r.random()
-            if u < .35:
-                op = ('read',)
-            elif u < .6:
-                op = ('save', r.choice([2, 3]), int(r.random() < .25))
-            else:
-                op = ('crash', r.choice([2, 3]), int(r.random() < .2), r.randint(0, 11), int(r.random() < .4))
+        op = tuple(ops_fixed[step]) if ops_fixed is not None else random_op(r, step, hist[-1] if hist else None)
+        is_read = op[0] in ('read', 'rcrash', 'rinterrupt')
+        if op[0] == 'nsave':
+            need_poisoned(op[1])
+        t, mo = (1, 0) if is_read else (4, 0) if op[0] == 'nsave' else (op[1], op[2])
+        ki = {'crash': 3, 'interrupt': 3, 'rcrash': 1, 'rinterrupt': 1}.get(op[0])
+        if ki is not None and op[ki] < 0:      # interruption point counted from the end of this save (-1: its last effect)
+            op = op[:ki] + (max(0, len(traced(t, mo)) + op[ki]),) + op[ki + 1:]
         hist.append(list(op))
+        inj = op_injection(op)
         before = observe_dir(d, refs)
-        returned = None
-        err = None
-        try:
-            with contextlib.redirect_stdout(io.StringIO()):
-                if op[0] == 'read':
-                    returned = FEMData.read_directory('ucd', d, read_npy=True, save=True)
-                elif op[0] == 'save':
-                    objs_fd[op[1]].save(d, save_mesh_only=bool(op[2]))
-                else:
-                    try:
-                        with effects(d, crash_at=op[3], torn=bool(op[4])):
-                            objs_fd[op[1]].save(d, save_mesh_only=bool(op[2]))
-                    except Crash:
-                        pass
-        except Exception as e:
-            err = f'{type(e).__name__}: {e}'
+        if is_read:
+            def fn():
+                return FEMData.read_directory(ft, d, read_npy=True, save=True)
+        else:
+            def fn(t=t, mo=mo):
+                objs_fd[t].save(d, save_mesh_only=bool(mo))
+        returned, err, intr, done = run_interruptible(fn, d, inj)
         after = observe_dir(d, refs)
-        case = {'history': hist[:], 'flags': {str(t): list(o[1]) for t, o in objs.items()}}
-        served_from_cache = op[0] == 'read' and before[6] == 's'
-        ctx.case((hid, step), sample={'op': list(op), 'dir_before': before, 'dir_after': after},
+        case = {'history': hist[:], 'flags': {str(t2): list(o[1]) for t2, o in objs.items()}}
+        served_from_cache = is_read and before[6] == 's'
+        ctx.case((hid, step), sample={'op': list(op), 'dir_before': before, 'dir_after': after,
+                                      **({'interrupted': {k2: v for k2, v in intr.items() if k2 != 'unwind'},
+                                          'effects_while_unwinding': intr['unwind']} if intr else {})},
                  nontrivial=(before != after) or served_from_cache)
         ctx.count('op:' + op[0] + ('/cache' if served_from_cache else ''))
+        if intr is not None:
+            ctx.count('interrupted-by:' + intr['by'] + (' (did not leave the call)' if intr['swallowed'] else ''))
+            where = 'first-read auto-save' if is_read else 'save over a complete cache' if before[6] == 's' else 'save'
+            ctx.count(f'interrupted: {where}, ' + ('process death' if intr['by'] == 'kill' else 'exception'))
+            ctx.count(f'effects while unwinding: {len(intr["unwind"])}')
+        elif inj is not None:
+            ctx.count('interruption point beyond the last effect' if not served_from_cache else 'read served from cache: nothing to interrupt')
         # ---------------- oracle
-        if op[0] == 'read':
-            if err is not None:
-                ctx.fail('read-raises', f'read_directory raised {err} after history {hist}', case, {'dir': before})
-                return
+        got = None
+        if is_read and returned is not None:
             got = match_returned(digest(returned), objs)
             if got is None:
                 ctx.fail('partial-cache-loaded', f'read_directory returned data that is neither the parse of the source nor one '
@@ -462,36 +678,70 @@ def run_history(ctx, hid, ops_fixed=None):
                          {'dir': before})
                 return
             ctx.count(f'read-returns:{"source" if got[0] == 1 else "saved-object"}{"(mesh-only)" if got[1] else ""}')
-        elif err is not None:
-            ctx.notes.append(f'{op} raised {err}')
+        elif is_read and err is not None:
+            ctx.fail('read-raises', f'read_directory raised {err} after history {hist}', case, {'dir': before})
+            return
+        elif op[0] in ('save', 'crash', 'interrupt') and err is not None:
+            ctx.fail('save-raises', f'save() of an ordinary object raised {err} by itself', case, {'dir': before})
+            return
+        elif op[0] == 'nsave':
+            ctx.count(f'save raises by itself ({op[1]}): ' + (err.split(':')[0] if err else 'NOT RAISED'))
         # ---------------- correspondence
         if ctx.driver is not None and model_on:
-            def obj(t):
-                return f'{t} {objs[t][1][0]} {objs[t][1][1]} {objs[t][1][2]}'
+            def obj(t2):
+                return f'{t2} {objs[t2][1][0]} {objs[t2][1][1]} {objs[t2][1][2]}'
             md = ' '.join(model_dir)
-            tr, good = plan(1, 0) if op[0] == 'read' else plan(op[1], op[2])
+            tr, good = plan(t, mo)
             if not good:
                 model_on = False
                 continue
-            if op[0] == 'read':
-                line = f'c05.gstep {md} read {obj(1)} {enc_plan(tr)}'
-            elif op[0] == 'save':
-                line = f'c05.gstep {md} save {obj(op[1])} {op[2]} {enc_plan(tr)}'
+            # nominal interruption point of an injected interruption (so that the model, not the observation, decides
+            # what a point beyond the last effect means); observed point of one raised by femio itself
+            if inj is not None:
+                p, torn = inj['k'] + (1 if inj['after'] else 0), inj['torn']
+                unw = intr['unwind'] if intr else []
+            elif intr is not None:
+                p, torn, unw = intr['p'], int(intr['torn']), intr['unwind']
+            if intr is not None and (done != tr[:len(done)] or any(f not in FILES for _k, f in unw)):
+                ctx.disagree('the effects performed before the interruption are not a prefix of the traced plan of this save',
+                             case, {'performed': done, 'then': unw}, {'plan': tr})
+                model_on = False
+                continue
+            if inj is None and intr is None:
+                line = (f'c05.gstep {md} read {obj(1)} {enc_plan(tr)}' if is_read else
+                        f'c05.gstep {md} save {obj(t)} {mo} {enc_plan(tr)}')
+            elif op[0] == 'crash':
+                line = f'c05.gstep {md} crash {obj(t)} {mo} {p} {torn} {enc_plan(tr)}'
+            elif is_read:
+                line = f'c05.ustep {md} rinterrupt {obj(1)} {p} {torn} {enc_plan(tr)} {enc_plan(unw)}'
             else:
-                line = f'c05.gstep {md} crash {obj(op[1])} {op[2]} {op[3]} {op[4]} {enc_plan(tr)}'
+                line = f'c05.ustep {md} interrupt {obj(t)} {mo} {p} {torn} {enc_plan(tr)} {enc_plan(unw)}'
             rep = ctx.driver.ask(line).split()
             if rep[0] != 'ok':
                 raise RuntimeError('driver: ' + ' '.join(rep))
             new_dir = rep[1:8]
             model_dir = new_dir
-            obs = [('s' if (f == 'sentinel' and c not in 'at') else c) for f, c in zip(FILES, after)]
-            mod = [('s' if (f == 'sentinel' and c not in 'at') else c) for f, c in zip(FILES, new_dir)]
+            ret = rep[8:15]
+            if line.startswith('c05.ustep'):
+                ctx.count('unwind:' + ('good' if rep[8] == '1' else 'NOT-good'))
+                ret = rep[9:16]
+                if rep[8] != '1':
+                    ctx.disagree('the effects performed while the exception unwinds the stack are not accepted by GoodUnwind '
+                                 '(none creates the sentinel; no data file is touched while the sentinel may exist): hypothesis '
+                                 'of the *_unwind theorems', case, {'interrupted': {k2: v for k2, v in intr.items()}},
+                                 'GoodUnwind = false')
+                    model_on = False
+                    continue
+
+            def cn(f, c):      # sentinel: present or not; 'x' (readable, but not a complete file of any object) = torn
+                return 's' if (f == 'sentinel' and c not in 'at') else 't' if c == 'x' else c
+            obs = [cn(f, c) for f, c in zip(FILES, after)]
+            mod = [cn(f, c) for f, c in zip(FILES, new_dir)]
             if obs != mod:
                 ctx.disagree('directory after ' + op[0], case, dict(zip(FILES, obs)), dict(zip(FILES, mod)))
                 model_on = False
                 continue
-            if op[0] == 'read' and returned is not None:
-                ret = rep[8:15]
+            if is_read and returned is not None:
                 # the model says whose files were loaded; a coherent model result names one (tag, mesh_only)
                 tags = {c for f, c in zip(FILES, ret) if c not in 'at'}
                 m_mesh_only = ret[5] == 'a'
@@ -508,6 +758,9 @@ def exactness(ctx, k):
     state = r.getstate()      # the whole case is a function of (k, this state): kept in the case for the replay
     d = ctx.tmp / f'x{k}'
     d.mkdir(parents=True)
+    if r.random() < .3:          # save() creates the (nested) target directory itself
+        d = d / 'new' / 'cache dir'
+        ctx.count('exactness: target directory does not exist yet')
     edits = {}
     ts = r.random() < .12
     poly = (not ts) and r.random() < .15
@@ -642,22 +895,148 @@ def trace_tie(ctx):
                         rep = ctx.driver.ask(f'c05.steps 1 1 7 {f[0]} {f[1]} {f[2]} {mo}').split()
                         ms = [(rep[2 + 2 * i], rep[3 + 2 * i]) for i in range(int(rep[1]))]
                         ctx.count('plan-order:' + ('same-as-saveSteps' if ms == tr else 'other-than-saveSteps'))
+                    unwind_tie(ctx, fd, f, mo, tr)
+
+
+def unwind_tie(ctx, fd, f, mo, tr):
+    """tie T for the *_unwind theorems: the save of fd over a complete cache is left by an exception at EVERY effect
+    (before it / right after it; the exceptions of EXCS in turn); the effects performed before must be the prefix of
+    the traced plan, the effects the code performs while the stack unwinds (finally / except / __exit__) are traced
+    and must be accepted by GoodUnwind (hypothesis of the theorems, evaluated by the driver)"""
+    names = list(EXCS)
+    d = ctx.tmp / 'plan'
+    for k in range(len(tr)):
+        for after in (0, 1):
+            if d.exists():
+                shutil.rmtree(d)
+            d.mkdir(parents=True)
+            with contextlib.redirect_stdout(io.StringIO()):
+                _FULL['fd'].save(d)
+            exc = names[(k + 2 * after) % len(names)]       # every effect: one BaseException, one ordinary Exception
+            _ret, err, intr, done = run_interruptible(lambda: fd.save(d, save_mesh_only=bool(mo)), d,
+                                                      {'k': k, 'torn': 0, 'exc': exc, 'after': after})
+            case = {'flags': f, 'mesh_only': mo, 'interrupted_by': exc, 'at_effect': k, 'after_the_effect': after}
+            ctx.count('unwind-tie')
+            if intr is None or err is not None or intr['swallowed'] or done != tr[:k + after]:
+                ctx.disagree('a save left by an exception at effect k performed something else than the first k effects of '
+                             'its plan', case, {'performed': done, 'error': err, 'interruption': intr}, {'plan': tr})
+                continue
+            ctx.count(f'unwind-tie: effects while unwinding: {len(intr["unwind"])}')
+            if ctx.driver is not None:
+                if any(f2 not in FILES for _k, f2 in intr['unwind']):
+                    ctx.disagree('clean-up touches a femio_* file the model does not know', case, intr['unwind'], None)
+                    continue
+                rep = ctx.driver.ask(f'c05.unwind {len(tr)} {k + after} {enc_plan(intr["unwind"])}').split()
+                if rep[0] != 'ok':
+                    raise RuntimeError('driver: ' + ' '.join(rep))
+                if rep[1] != '1':
+                    ctx.count('unwind-tie: NOT-good')
+                    ctx.disagree('the effects performed while the exception unwinds the stack are not accepted by GoodUnwind '
+                                 '(none creates the sentinel; no data file is touched while the sentinel may exist)', case,
+                                 {'effects_while_unwinding': intr['unwind']}, 'GoodUnwind = false')
+    shutil.rmtree(d, ignore_errors=True)
+
+
+def interruptions(n_points, excs):
+    """every way of interrupting at each of n_points effects: process death (plain / torn) and, per exception of
+    `excs`, raised before the effect / after half-writing its file / right after the effect -> (kind-specific op tail)"""
+    for k in range(n_points):
+        for torn in (0, 1):
+            yield ('kill', k, torn, None, 0)
+        for e in excs:
+            for torn, after in ((0, 0), (1, 0), (0, 1)):
+                yield ('exc', k, torn, e, after)
 
 
 def exhaustive_second_save(ctx):
-    """every crash point x torn x mesh-only of a second save over a complete first one, then a read"""
+    """every interruption (point x process death / exception x torn / after) x mesh-only of a second save over a
+    complete first one, then a read; the same for the automatic save of a first read, then two reads"""
     n = 0
     for first_mo in (0, 1):
         for mo in (0, 1):
-            for k in range(0, 12):
-                for torn in (0, 1):
-                    run_history(ctx, f'e{first_mo}{mo}{k}{torn}', ops_fixed=[('read',), ('save', 2, first_mo),
-                                                                             ('crash', 3, mo, k, torn), ('read',)])
-                    n += 1
+            for kind, k, torn, e, after in interruptions(12, ['KeyboardInterrupt', 'OSError']):
+                op = ('crash', 3, mo, k, torn) if kind == 'kill' else ('interrupt', 3, mo, k, torn, e, after)
+                run_history(ctx, f'e{first_mo}{mo}{k}{torn}{e}{after}', ops_fixed=[('read',), ('save', 2, first_mo), op, ('read',)])
+                n += 1
+    for kind, k, torn, e, after in interruptions(12, ['KeyboardInterrupt', 'SystemExit', 'OSError', 'MemoryError']):
+        op = ('rcrash', k, torn) if kind == 'kill' else ('rinterrupt', k, torn, e, after)
+        run_history(ctx, f'r{k}{torn}{e}{after}', ops_fixed=[op, ('read',), ('read',)])
+        n += 1
+    for how in POISONS:
+        for first in ([], [('read',)], [('save', 2, 0)], [('save', 3, 1)]):
+            run_history(ctx, f'n{how}{len(first)}', ops_fixed=first + [('nsave', how), ('read',), ('read',)])
+            n += 1
     ctx.extra['exhaustive_second_save_histories'] = n
 
 
+QUICK_FIXED = [
+    # process death inside a second save (as before)
+    [('save', 2, 0), ('crash', 3, 0, 1, 0), ('read',)],
+    [('save', 2, 0), ('crash', 3, 0, 6, 0), ('read',)],
+    [('save', 2, 0), ('crash', 3, 0, 8, 0), ('read',)],
+    # the same points, left by an exception: BaseException and ordinary Exception, before / inside / after the effect
+    [('save', 2, 0), ('interrupt', 3, 0, 1, 0, 'KeyboardInterrupt', 0), ('read',)],
+    [('save', 2, 0), ('interrupt', 3, 0, 5, 1, 'OSError', 0), ('read',)],
+    [('save', 2, 0), ('interrupt', 3, 0, 6, 0, 'SystemExit', 1), ('read',)],
+    [('save', 2, 1), ('interrupt', 3, 1, 6, 0, 'OSError', 0), ('read',)],
+    [('interrupt', 2, 0, 7, 0, 'MemoryError', 0), ('read',), ('read',)],
+    # before the first effect / right after the last one of a save over a complete cache
+    [('save', 2, 0), ('interrupt', 3, 0, 0, 0, 'KeyboardInterrupt', 0), ('read',)],
+    [('save', 2, 0), ('interrupt', 3, 0, -1, 0, 'OSError', 1), ('read',)],
+    # the automatic save of the first read is interrupted; the next two reads
+    [('rcrash', 6, 1), ('read',), ('read',)],
+    [('rinterrupt', 6, 0, 'KeyboardInterrupt', 0), ('read',), ('read',)],
+    [('rinterrupt', 7, 1, 'OSError', 0), ('read',), ('read',)],
+    # a save that raises by itself over the complete cache of another object
+    [('save', 2, 0), ('nsave', 'unpicklable'), ('read',)],
+    [('read',), ('nsave', 'reserved-key'), ('read',)],
+]
+
+
 def run(ctx):
+    SKIPPED.clear()
+    try:
+        run_streams(ctx)
+    finally:
+        for k, v in SKIPPED.items():
+            ctx.count(k, v)
+
+
+def probe_mesh_only_first_read(ctx):
+    """a sequence of read_directory calls with a NON-default option first: read_directory(read_mesh_only=True) then a default
+    read.  Clause 2 (a later read served from the cache returns the same data as parsing the source files) for "every sequence
+    of read_directory / save calls": the second read must equal the parse of the source.  (Upstream: the first read saved a
+    complete-looking cache of the mesh-only object and every later default read lost the nodal data of the source -
+    findings/C05-mesh-only-first-read.md, fixed.)"""
+    from femio import FEMData
+    for k, fmt in enumerate(['ucd', 'fistr', 'ucd']):
+        d = ctx.tmp / f'probe-mesh-only{k}'
+        d.mkdir(parents=True)
+        try:
+            parse = make_source(ctx.rng, d, 1 + k % 2, fmt)
+        except Exception:
+            ctx.count('mesh-only-first-read: source could not be prepared')
+            shutil.rmtree(d, ignore_errors=True)
+            continue
+        case = {'kind': 'mesh-only-first-read', 'format': fmt, 'sequence': ['read_directory(read_mesh_only=True)', 'read_directory()']}
+        try:
+            with contextlib.redirect_stdout(io.StringIO()):
+                FEMData.read_directory(fmt, d, read_mesh_only=True)
+                later = FEMData.read_directory(fmt, d)
+            same = digest(later) == digest(parse)
+            what = 'the cached mesh-only object (data of the source lost)'
+        except Exception as e:
+            same, what = False, f'raises {type(e).__name__}: {e}'[:200]
+        ctx.case(('mesh-only-first-read', fmt, k), sample={**case, 'second_read_equals_parse': same}, nontrivial=True)
+        ctx.count('mesh-only-first-read: later default read returns ' + ('the parse of the source' if same else what[:60]))
+        if not same:
+            ctx.fail('cache-not-transparent:after-mesh-only-read',
+                     f'read_directory({fmt!r}, d, read_mesh_only=True) followed by read_directory({fmt!r}, d): the second read returns '
+                     f'{what} instead of the parse of the source files', case, {'second_read': what})
+        shutil.rmtree(d, ignore_errors=True)
+
+
+def run_streams(ctx):
     trace_tie(ctx)
     for name, j in C.corpus_cases(PROP):
         ctx.count('corpus')
@@ -667,12 +1046,13 @@ def run(ctx):
         shutil.rmtree(ctx.tmp / f'h{h}', ignore_errors=True)
     if not ctx.quick:
         exhaustive_second_save(ctx)
-    else:
-        for k in (1, 6, 8):
-            run_history(ctx, f'q{k}', ops_fixed=[('save', 2, 0), ('crash', 3, 0, k, 0), ('read',)])
+    for i, ops in enumerate(QUICK_FIXED):
+        run_history(ctx, f'q{i}', ops_fixed=ops)
+        shutil.rmtree(ctx.tmp / f'hq{i}', ignore_errors=True)
     for k in range(ctx.n(60, 500)):
         exactness(ctx, k)
         shutil.rmtree(ctx.tmp / f'x{k}', ignore_errors=True)
+    probe_mesh_only_first_read(ctx)
 
 
 def replay(ctx, obj):
